@@ -7,7 +7,7 @@
    the body with fresh loop state and catches the return signal; <scope> functions run on a cleared
    variable map and give back the caller's map plus the output variable). *)
 Require Import DS.Base DS.FlowTables DS.FlowTablesWf DS.FlowScan DS.Flow DS.FlowFn DS.FlowFnTree DS.FlowFnDom
-  DS.FlowFnScan DS.FlowFnSim DS.FlowFnThms.
+  DS.FlowFnScan DS.FlowFnSim DS.FlowFnThms DS.FlowFnSites DS.FlowFnRec DS.FlowFnRecThms DS.FlowFnReach DS.FlowFnFinal.
 Open Scope nat_scope.
 
 (* the regenerated keyword tables are well-formed; the additional facts C05 uses (function table,
@@ -24,16 +24,33 @@ Theorem C05_fn_end : forall (callable : str -> Prop) pre b c rest,
   = SOk [] (length pre + length (gb b)).
 Proof. exact find_fn_end. Qed.
 
-(* FULL STATEMENT (DESIGN §7 C05), not yet proved in this generality:
-     Theorem C05_sim : forall p, wf_prog p = true -> known_f6 p = false ->
-       forall n w w', prog_run n p w = FOk w' ->
-       exists fuel f' g', forall k, fuel <= k -> frun_program k (compile_prog p) w = FDone (w', f', g').
-   PROVED PART: the same conclusion for [ordered_prog p]: well-formed programs in which every
-   function only calls functions defined after it (so no call-graph cycle: no recursion) and no
-   return stands inside a for-in body.  MISSING: programs with call-graph cycles outside KnownF6
-   (recursion that does not pass through a for-in body) and calls in condition position (C05_cond);
-   both are covered by the correspondence run only. *)
-Theorem C05_sim_partial : forall p, tables_wf = true -> ordered_prog p = true ->
+(* simulation (full statement of DESIGN §7 C05 for calls in statement position): for every
+   well-formed program outside KnownF6 — any number of functions, scoped or not, nested and
+   RECURSIVE calls (call-graph cycles), returns at any depth of if / while, repeated calls — whatever
+   the tree-walking interpreter computes, the flat machine computes on the compiled program: it runs
+   past the last line (never stuck, no Error / Crash / Panic) in exactly that world (emit trace,
+   variables, arrays), with the for-in stack, the function call stack and the scope stack empty.
+   Proof: frame statement with site-based junk (FlowFnSites.sites_unique: every stack entry for a
+   given line carries the same block positions; junk if-entries have passed = true), the for-in
+   stack discipline of KnownF6 (entries of outer activations belong to functions the current one
+   cannot be reached from), completeness of the bounded reachability of [known_f6]
+   (FlowFnReach.reach_complete).
+   NOT covered by a theorem: calls in condition position (C05_cond; model FlowFnC.v, spec
+   FlowFnCTree.v, correspondence run only). *)
+Theorem C05_sim : forall p, tables_wf = true -> wf_prog p = true -> known_f6 p = false ->
+  forall n w w', prog_run n p w = FOk w' ->
+  exists fuel f' g', (forall k, fuel <= k -> frun_program k (compile_prog p) w = FDone (w', f', g')) /\
+                     f_forstk f' = [] /\ fs_stk g' = [] /\ fs_scopes g' = [].
+Proof. exact rec_sim. Qed.
+
+(* the key fact behind it: a line is the end line or an else line of at most one block site *)
+Theorem C05_sites_unique : forall p x y k,
+  In x (prog_sites p) -> In y (prog_sites p) -> In k (keys x) -> In k (keys y) -> x = y.
+Proof. exact sites_unique. Qed.
+
+(* first proof (kept): the same conclusion for programs whose calls follow the definition order,
+   by line regions instead of sites *)
+Theorem C05_sim_ordered : forall p, tables_wf = true -> ordered_prog p = true ->
   forall n w w', prog_run n p w = FOk w' ->
   exists fuel f' g', (forall k, fuel <= k -> frun_program k (compile_prog p) w = FDone (w', f', g')) /\
                      f_forstk f' = [] /\ fs_stk g' = [] /\ fs_scopes g' = [].
